@@ -9,7 +9,7 @@ from vlib import log
 
 HOME = dict(c1="S", c2="S", c3="r1", c4="r1", c5="r2", c6="r3", l1="S", l2="r3")
 RHOME = dict(r1="S", r2="S", r3="r1")
-SPECIAL = ["Wedge", "DupBroadcast", "PoolStop", "PoolStopConnected", "BadFrame"]
+SPECIAL = ["Wedge", "DupBroadcast", "PoolStop", "PoolStopConnected", "BadFrame", "Reborn"]
 
 
 def desc(e):
@@ -43,7 +43,7 @@ def special(v, d, drv, seed, modes=SPECIAL, reps=1):
     scen = [dict(sc=i + 1, seed=seed * 1009 + i, steps=[], opt=dict(mode=m, home=HOME, rhome=RHOME)) for i, m in enumerate(modes * reps)]
     sf, tf = os.path.join(d, "special.json"), os.path.join(d, "special.ndjson")
     json.dump(scen, open(sf, "w"))
-    vlib.run_driver(drv, sf, tf, ["-workers", "4", "-stall", "30"], timeout=300)
+    vlib.run_driver(drv, sf, tf, ["-workers", "6", "-stall", "80"], timeout=600)
     for s, t in zip(scen, vlib.read_traces(tf)):
         m = s["opt"]["mode"]
         if t.get("dead") or not t["ev"]:
@@ -66,6 +66,14 @@ def special(v, d, drv, seed, modes=SPECIAL, reps=1):
             if e.get("handed") != 1:
                 v.classify(dict(tag="C17-duplicate-broadcast-on-subscribe-race", handed=e.get("handed")),
                            "a collector subscribing while a broadcast task is added is handed the task %s times" % e.get("handed"), rp)
+        elif m == "Reborn":
+            ok = (e.get("connect") == "ok" and e.get("pool_noticed") and e.get("reborn") and e.get("sync_after") and e.get("new_id")
+                  and e.get("t1_before") == 1 and e.get("t1_after") == 2 and e.get("add_t2") == "ok" and e.get("t2") == 1
+                  and e.get("report") == "ok" and e.get("take") == "item/r1/p4" and e.get("disconnect") == "ok" and e.get("prompt")
+                  and "arrived=yes" in str(e.get("lane_ordinary")) and "arrived=yes" in str(e.get("lane_priority")))
+            if not ok:
+                v.classify(dict(tag="C17-relay-does-not-recover-from-connection-loss"),
+                           "a relay whose connection was reset and which stayed up: %s" % json.dumps({k: e[k] for k in e if k not in ("a", "step", "res")}, sort_keys=True), rp)
         elif m == "BadFrame":
             if not e.get("count_prompt") or e.get("count") != 0 or e.get("connect_after") != "ok" or not e.get("prompt"):
                 v.classify(dict(tag="C17-undecodable-frame-wedges-pool"),
